@@ -84,6 +84,7 @@ func cmdCheck(args []string) int {
 	repo := fs.String("repo", envOr("VERIF_REPO", "/repo"), "repository")
 	verif := fs.String("verif", envOr("VERIF_DIR", "/verif"), "verif dir")
 	noEvidence := fs.Bool("no-evidence", false, "do not write the evidence file")
+	updateBaseline := fs.Bool("update-baseline", false, "record the generated obligation names as the baseline of this property")
 	fs.Parse(args)
 	t0 := time.Now()
 	seed, _ := strconv.Atoi(envOr("VERIF_SEED", "0"))
@@ -275,6 +276,21 @@ func cmdCheck(args []string) int {
 			failing = append(failing, firstFail)
 		}
 		sums = append(sums, s)
+	}
+	if *updateBaseline {
+		m := map[string][]string{}
+		if b, err := os.ReadFile(filepath.Join(*verif, "baseline_obligations.json")); err == nil {
+			json.Unmarshal(b, &m)
+		}
+		var bl []string
+		for _, n := range names {
+			if !byName[n].obs[0].Cover && !strings.Contains(n, "!") {
+				bl = append(bl, n)
+			}
+		}
+		m[pd.ID] = bl
+		b, _ := json.MarshalIndent(m, "", " ")
+		os.WriteFile(filepath.Join(*verif, "baseline_obligations.json"), b, 0o644)
 	}
 	// baseline: names that must be generated (vacuity guard against silently vanishing obligations)
 	var missing []string
